@@ -2,6 +2,7 @@ package exporter
 
 import (
 	proto "github.com/anz-bank/sysl/pkg/sysl"
+	"github.com/anz-bank/sysl/pkg/syslutil"
 	yaml "github.com/ghodss/yaml"
 	"github.com/go-openapi/spec"
 	"github.com/sirupsen/logrus"
@@ -31,6 +32,10 @@ func (s *SwaggerExporter) GenerateSwagger() error {
 	s.buildSwagger.Definitions = spec.Definitions{}
 
 	s.buildSwagger.SwaggerProps.Info.Title = s.app.LongName
+	// info.title is required: an application without a long name is titled by its name
+	if s.buildSwagger.SwaggerProps.Info.Title == "" {
+		s.buildSwagger.SwaggerProps.Info.Title = syslutil.GetAppName(s.app.GetName())
+	}
 	s.buildSwagger.SwaggerProps.Info.Description = s.app.GetAttrs()["description"].GetS()
 	s.buildSwagger.SwaggerProps.Info.Version = s.app.GetAttrs()["version"].GetS()
 	if s.buildSwagger.SwaggerProps.Info.Version == "" {
